@@ -99,6 +99,22 @@ def make_items(seed, tier):
     for name, text in gram.shape_corpus():
         for sh in (gram.SHELLS if not quick else [rng.sub("shape/" + name).choice(gram.SHELLS)]):
             add("shape:" + name, text, rng.sub("shape/%s/%s" % (name, sh)), shell=sh, fault_mode="sample", dots="none")
+    # the repository's own test inputs (unit tests, e2e): the authors' corner cases, fault-free + sampled faults
+    corpus = gram.repo_test_grammars(build.REPO)
+    for i, text in enumerate(corpus):
+        r = rng.sub("repo-test/%d" % i)
+        try:
+            enc_text = text.encode("utf-8").decode("latin-1")
+        except UnicodeError:
+            continue
+        if quick and i % 3 != (seed % 3):
+            continue
+        add("repo-test", enc_text, r, fault_mode="sample" if not quick else "none", dots="none")
+    # unusual command names on every shell, file destination (a late rejection must not touch it)
+    for nm in ("it's", "c++", "a:b", "k=v", "50%", "x@y", "~t", "a,b", "q?", "$c", "`d`", "a&b", "#h", "!e", "*s", "^c", "n.a.m.e", "-dash"):
+        for sh in gram.SHELLS:
+            add("shape:command-name", "%s sub (a | b) --o=(x | y) {{{ echo z }}};\n" % nm, rng.sub("name/%s/%s" % (nm, sh)), shell=sh,
+                fault_mode="none", dots="none", dest_mode="existing", input_mode="file")
     # input dimension only (fault-free + a few sampled faults): structure-aware mutations, token soups
     for i in range(n_mut):
         r = rng.sub("mut/%d" % i)
@@ -521,9 +537,21 @@ def _run_plans(item, case, R, plans, fs, out, pr, nwrites_dest, seen_classes, rn
             parts = p.split()
             k = "%s/%s/%s" % (parts[1], parts[2], parts[4] if parts[4] != "err" else "err:" + parts[5])
             out["configured"][k] = out["configured"].get(k, 0) + 1
-        if fs is not None and pi % 8 != 7:
-            res = fs.run(plan)
-            out["forkserver_runs"] += 1
+        via_fs = fs is not None and pi % 8 != 7
+        if via_fs:
+            try:
+                res = fs.run(plan)
+                out["forkserver_runs"] += 1
+            except proc.ForkServerGone:
+                # overloaded machine or dead server: not a verdict about complgen; continue with fresh execs for this item
+                out["forkserver_lost"] = out.get("forkserver_lost", 0) + 1
+                try:
+                    fs.close()
+                except Exception:
+                    pass
+                fs = None
+                via_fs = False
+                res = proc.run_case(c)
         else:
             res = proc.run_case(c)
         out["runs"] += 1
@@ -546,7 +574,7 @@ def _run_plans(item, case, R, plans, fs, out, pr, nwrites_dest, seen_classes, rn
                 if any(int(ev.get("nth", -2)) == lastw for ev in fired if ev.get("role") in ("dest", "stdout")):
                     pr["final_flush_fault_hit"] = pr.get("final_flush_fault_hit", 0) + 1
         v = judge_faulted(item, R, res)
-        if v and fs is not None and pi % 8 != 7:
+        if v and via_fs:
             # ground truth is a fresh exec with real pipes; a violation seen only under the fork server is a harness anomaly
             res = proc.run_case(c)
             out["runs"] += 1
